@@ -16,7 +16,10 @@ use qbice_storage::tiny_lfu::{Entry, LifecycleListener, MaintenanceMode, TinyLFU
 use verif_replay::*;
 
 struct Val { v: u64, pinned: Arc<AtomicBool>, live: Arc<AtomicUsize> }
-impl Drop for Val { fn drop(&mut self) { self.live.fetch_sub(1, Ordering::SeqCst); } }
+/// values >= SLOW_DROP take a few milliseconds to drop (an owner releasing a resource): this stretches the tail of a
+/// maintenance pass so that other work arrives while it is still running
+const SLOW_DROP: u64 = 1 << 40;
+impl Drop for Val { fn drop(&mut self) { if self.v >= SLOW_DROP { std::thread::sleep(std::time::Duration::from_millis(3)); } self.live.fetch_sub(1, Ordering::SeqCst); } }
 
 #[derive(Default)]
 struct FlagListener;
@@ -234,6 +237,47 @@ fn directed_long_pin_dedicated(s: UnpinStrategy) -> u64 {
     300
 }
 
+/// dedicated maintenance thread, work arriving DURING the tail of a pass: parked entries whose values are slow to drop are
+/// released, a pass starts trimming them (about 100 ms), and meanwhile the client writes several batches' worth of new
+/// entries; afterwards the client keeps writing. The cache must keep maintaining itself (bound awaited up to 3 s).
+fn directed_dedicated_busy_tail() -> u64 {
+    let cap = 8;
+    let mut h = H::new_mode(cap, UnpinStrategy::Poll, MaintenanceMode::DedicatedThread);
+    h.desc.push_str(" directed: several batches of writes arrive while the dedicated thread is still in the tail of a pass");
+    let mut next = 1001u64;
+    let nap = |ms: u64| std::thread::sleep(std::time::Duration::from_millis(ms));
+    let mut parked = vec![];
+    for round in 0..40u64 {
+        let k = next | 1; next = k + 1;
+        h.put(k, SLOW_DROP + round, true);
+        for _ in 0..(cap as u64 * 2) { let f = next; next += 1; h.put(f, 0, false); let _ = h.get(f); }
+        h.flush(); nap(2);
+        parked.push(k);
+    }
+    nap(30);
+    for k in &parked { if let Some((_, f)) = h.model.get(k) { f.store(false, Ordering::SeqCst); } }   // silent release (Poll)
+    h.log.push("release all parked entries silently".into());
+    h.flush();                       // starts a pass: drains the buffer, then trims ~40 slow-to-drop entries
+    nap(25);                         // the pass is now in its tail
+    for _ in 0..150u64 { let f = next; next += 2; h.put(f & !1, 0, false); }   // several batches pile up meanwhile
+    h.log.push("150 writes while the pass was still running".into());
+    nap(250);                        // the pass has ended
+    for _ in 0..1500u64 { let f = next; next += 2; h.put(f & !1, 0, false); }
+    h.log.push("1500 more writes".into());
+    let bound = cap + SLACK;
+    let mut resident = h.live.load(Ordering::SeqCst);
+    for _ in 0..300 {
+        if resident <= bound { break; }
+        h.flush();
+        nap(10);
+        resident = h.live.load(Ordering::SeqCst);
+    }
+    if resident > bound {
+        report_found("resident entries exceed capacity + pinned + slack", &h.hist(), &format!("{resident} resident after 3 s of maintenance nudges, nothing pinned, capacity {cap}"), &format!("<= {bound}"));
+    }
+    1650
+}
+
 /// the bound with nothing pinned, after ordinary traffic has had a chance to push leaked entries out
 fn settle_and_check_bound(h: &mut H, next: &mut u64, what: &str) {
     let keys: Vec<u64> = h.model.keys().cloned().collect();
@@ -351,6 +395,7 @@ fn main() {
             }
         }
     };
+    n += run("directed_dedicated_busy_tail", &mut || directed_dedicated_busy_tail());
     for s in [UnpinStrategy::Notify, UnpinStrategy::Poll] {
         n += run(&format!("directed_empty_probation {s:?}"), &mut || directed_empty_probation(s));
         n += run(&format!("directed_repin {s:?}"), &mut || directed_repin(s));
